@@ -51,6 +51,8 @@ class Prop:
         ncand = c.randint(2, 3)
         nmid = 2
         listen = {n: c.choice(["none", "otc", "obs", "both"]) for n in names}
+        if "lq" in listen:
+            listen["lq"] = "none"      # (listenable=False: nothing is forwarded, by declaration)
         nops = deep(c, [5, 10, 16, 24, 40], [60, 90])
         ctr = [100]
         ops = []
